@@ -237,6 +237,123 @@ def render_blocks(rng, doc, step, kinds, p_comment):
     return "".join(out), used
 
 
+
+# ---- points that repeat the point they are attached to ------------------------------------------------------------------------
+# "Exactly one node per point": a point is a node of its own whatever its coordinates are — also when it has the very coordinates and
+# radius of its parent point (a tracing that was resumed repeats its last point; the first point of a child branch often repeats the
+# branch point), when it is the same point spelled differently (1 / 1.0 / +1 / 1e0), or when it differs from it in a single field.
+REPEAT_MODES = ["in-branch", "at-split", "both", "respelled", "one-field", "run"]
+
+
+def respell(rng, s):
+    """the same number of the ASC grammar [-+]digits[.digits][e[-+]digits], written differently"""
+    alts = [s]
+    plain = "e" not in s.lower()
+    if plain and "." not in s:
+        alts += [s + ".0", s + ".00"]
+    if plain and "." in s and not s.endswith("."):
+        alts += [s + "0", s + "00"]
+    if not s.endswith("."):
+        alts += [s + ("e0" if plain else ""), s + ("e+0" if plain else ""), s + ("E-0" if plain else "")]
+    if s[0] not in "+-":
+        alts += ["+" + s]
+    if s[0].isdigit():
+        alts += ["0" + s]
+    alts = [a for a in alts if a != s] or [s]
+    return rng.choice(alts)
+
+
+def repeat_points(rng, branch, mode, last=None, depth=0):
+    """`branch` with points that repeat the point they are attached to (`last` = the last point before the enclosing split)"""
+    pts, split = branch
+
+    def copy_of(p):
+        if mode == "respelled":
+            return [respell(rng, v) if rng.random() < 0.6 else v for v in p]
+        if mode == "one-field":                       # equal in three of the four fields
+            q, k = list(p), rng.randrange(4)
+            q[k] = rng.choice([v for v in NUMS if _dec(v) != _dec(p[k])])
+            return q
+        return list(p)
+
+    out = []
+    if pts and last is not None and mode != "in-branch" and rng.random() < 0.75:
+        out.append(copy_of(last))                     # the first point of the alternative repeats the point before the split
+    for p in pts:
+        out.append(p)
+        if mode != "at-split":
+            reps = rng.choice([0, 1, 1, 2]) if mode != "run" else rng.choice([0, 3, 8, 20])
+            out.extend(copy_of(p) for _ in range(reps))
+    if split is not None:
+        split = [repeat_points(rng, a, mode, out[-1] if out else last, depth + 1) for a in split]
+    return (out, split)
+
+
+def n_repeats(rows):
+    """number of rows equal (as numbers) to the row of their parent"""
+    return sum(1 for ty, vals, pid in rows if pid >= 0 and [Fraction(v) for v in vals] == [Fraction(v) for v in rows[pid][1]])
+
+
+# ---- documents stored as files ------------------------------------------------------------------------------------------------
+# The file entry points read a TEXT file: the line ends of the file are the platform's (LF, or CR LF for a file written by the
+# Windows program / checked out with autocrlf, or both in one file after an edit), and a line end is white space of the document.
+# `render_lines` lays a document out the way a tracing program writes it: one point / bracket / bar / marker per line, indented, with
+# end-of-line comments; `with_eol` gives the bytes of the file.
+EOLS = ["lf", "crlf", "mixed"]
+FILE_VIAS = ["file", "convert", "open"]              # NeurolucidaAscToSwc()(fname), .convert(fname), .from_stream(open(fname))
+LINE_COMMENTS = ["", "", "", " ; R-{n}", "  ; {n}, {k}", " ;", "  ;; ( | )", " ; End of split", "\t; 1 2 3 4", " ; (Color Red)"]
+
+
+def render_lines(rng, doc):
+    label, branch, top_color = doc
+    lines, n = [], [0]
+
+    def com(p=0.5):
+        n[0] += 1
+        return rng.choice(LINE_COMMENTS).format(n=n[0], k=rng.randint(1, 9)) if rng.random() < p else ""
+
+    ind = lambda d: rng.choice(["  ", "  ", "\t", " "]) * d if rng.random() < 0.9 else ""          # noqa: E731
+    for _ in range(rng.choice([0, 0, 1, 3])):
+        lines.append(rng.choice(["; V3 text file written for MicroBrightField products.", ";", "", "; traced by {n}".format(n=rng.randint(1, 99))]))
+    lines.append("(" + com(0.3))
+    if top_color:
+        lines.append(ind(1) + "(Color " + top_color + ")" + com(0.3))
+    lines.append(ind(1) + "(" + label + ")" + com(0.3))
+
+    def rb(b, d):
+        pts, split = b
+        for p in pts:
+            lines.append(ind(d) + "(" + rng.choice([" ", "  ", "\t"]).join(p) + ")" + com())
+            if rng.random() < 0.1:
+                lines.append(ind(d) + "(Color " + rng.choice(COLORS) + ")" + com(0.2))
+            if rng.random() < 0.1:
+                lines.append(rng.choice(["", " ", ind(d) + "; resumed"]))
+        if split is not None:
+            lines.append(ind(d) + "(" + com(0.3))
+            for k, alt in enumerate(split):
+                if k:
+                    lines.append(ind(d) + "|" + com(0.2))
+                rb(alt, d + 1)
+            lines.append(ind(d) + ")" + com())
+
+    rb(branch, 1)
+    lines.append(")" + com())
+    for _ in range(rng.choice([0, 0, 1])):
+        lines.append(rng.choice(["", "; End of tree"]))
+    return "\n".join(lines) + rng.choice(["\n", "\n", ""])
+
+
+def with_eol(text, eol, eol_seed=0):
+    """bytes of the file that stores `text` (lines separated by LF) with the given line ends"""
+    import random
+    if eol == "crlf":
+        text = text.replace("\n", "\r\n")
+    elif eol == "mixed":
+        r = random.Random(eol_seed)
+        text = "".join(("\r\n" if r.random() < 0.5 else "\n") if ch == "\n" else ch for ch in text)
+    return text.encode("ascii")
+
+
 class Convert(Suite):
     name = "c15.convert"
 
@@ -376,18 +493,68 @@ class Convert(Suite):
             end = c["text"].rindex(")")
             cut = rng.randrange(c["step"], end, c["step"])
             out.append({"class": "truncated/at-block", "text": c["text"][:cut], "rows": None, "via": rng.choice(["stream", "file"]), "big": True})
+        # ---- appended families (after everything above, so that the cases above do not depend on them) ----
+        # points that repeat the point they are attached to, exactly / respelled / in three of four fields; through every entry point
+        for k in range(60 if big else 18):
+            mode = REPEAT_MODES[k % len(REPEAT_MODES)]
+            while True:
+                d = (rng.choice(["Axon", "Dendrite"]), gen_branch(rng, 0, rng.choice([2, 3, 6]), rng.choice([0.6, 0.9])), rng.choice([None, None, "Red"]))
+                d = (d[0], repeat_points(rng, d[1], mode), d[2])
+                rows = expected_rows(d)
+                if mode == "one-field" or n_repeats(rows) >= 1:
+                    break
+            text = render(rng, d, layout=rng.random() < 0.5)[0] if rng.random() < 0.7 else render_lines(rng, d)
+            out.append({"class": "repeat/" + mode, "text": text, "rows": _ser(rows), "via": rng.choice(["stream", "stream"] + FILE_VIAS),
+                        "repeats": n_repeats(rows)})
+        # documents stored as files: every file entry point x every line-end convention, laid out line by line
+        combos = [(v, e) for v in FILE_VIAS for e in EOLS]
+        for k in range(54 if big else 18):
+            via, eol = combos[k % len(combos)]
+            d = doc()
+            text = render_lines(rng, d) if rng.random() < 0.8 else render(rng, d)[0]
+            if "\n" not in text:
+                text += "\n"
+            out.append({"class": f"eol/{eol}/{via}", "text": text, "rows": _ser(expected_rows(d)), "via": via, "eol": eol,
+                        "eol_seed": rng.randrange(1 << 30)})
+        # … a document longer than a read buffer, a truncated and a corrupted one stored with CR LF line ends
+        d = ("Dendrite", gen_long(rng, 600), None)
+        out.append({"class": "eol/crlf/long", "text": render_lines(rng, d), "rows": _ser(expected_rows(d)), "via": rng.choice(FILE_VIAS), "eol": "crlf"})
+        for _ in range(8 if big else 3):
+            d = doc()
+            lines_ = render_lines(rng, d).split("\n")
+            body = [i for i, ln in enumerate(lines_) if ln.strip().startswith("(") and len(ln.split(";")[0].split()) >= 4]
+            if rng.random() < 0.5 or not body:
+                first = min(i for i, ln in enumerate(lines_) if ln.split(";")[0].strip() == "(")
+                last = max(i for i, ln in enumerate(lines_) if ln.split(";")[0].strip() == ")")
+                text, kl = "\n".join(lines_[:rng.randint(first + 1, last)]) + "\n", "truncated/eol"     # at least "(", never the closing ")"
+            else:
+                i = rng.choice(body)
+                code, sep, rest = lines_[i].partition(";")
+                f = code.split()
+                del f[rng.randrange(1, len(f))]               # the point lost a field (possibly with its closing bracket)
+                lines_[i] = " ".join(f) + ((" ;" + rest) if sep else "")
+                text, kl = "\n".join(lines_), "badpoint/eol"
+            out.append({"class": kl, "text": text, "rows": None, "via": rng.choice(FILE_VIAS), "eol": rng.choice(["crlf", "mixed"]),
+                        "eol_seed": rng.randrange(1 << 30)})
         return out
 
     def run(self, case):
         from swcgeom.transforms import NeurolucidaAscToSwc
 
-        if case["via"] == "file":
+        via = case.get("via", "stream")
+        if via in FILE_VIAS:
             tmp = tempfile.mkdtemp(prefix="c15_")
             try:
                 fn = os.path.join(tmp, "d.asc")
-                with open(fn, "w") as f:
-                    f.write(case["text"])
-                t = NeurolucidaAscToSwc()(fn)
+                with open(fn, "wb") as f:
+                    f.write(with_eol(case["text"], case.get("eol", "lf"), case.get("eol_seed", 0)))
+                if via == "convert":
+                    t = NeurolucidaAscToSwc.convert(fn)
+                elif via == "open":
+                    with open(fn, "r") as f:
+                        t = NeurolucidaAscToSwc.from_stream(f)
+                else:
+                    t = NeurolucidaAscToSwc()(fn)
             finally:
                 shutil.rmtree(tmp, ignore_errors=True)
         else:
@@ -416,8 +583,19 @@ class Convert(Suite):
         return [(f"asc cp={cps(case['text'])}", Expect(same, "impl=" + repr({k: res[k] for k in ("pid", "type")})[:600]))]
 
     def oracle(self, case, res):
+        try:
+            return self._oracle(case, res)
+        except Exception as e:  # noqa: BLE001 - a result that cannot even be read is not the table the property states
+            return [("asc-malformed-output", f"{case.get('class')}: the result cannot be compared with the document ({type(e).__name__}: {e}): {str(res)[:300]}")]
+
+    def _oracle(self, case, res):
         want = case["rows"]
         short = case["text"] if len(case["text"]) < 300 else case["text"][:300] + "…"
+        if case.get("via", "stream") in FILE_VIAS:
+            how = {"file": "NeurolucidaAscToSwc()(fname)", "convert": "NeurolucidaAscToSwc.convert(fname)", "open": "from_stream(open(fname))"}[case["via"]]
+            short = f"[file with {case.get('eol', 'lf').upper()} line ends, through {how}] " + short
+        if not isinstance(res, dict) or "exc" not in res and not all(k in res for k in ("n", "id", "pid", "type", "xyzr")):
+            return [("asc-malformed-output", f"{case['class']}: no table came back: {str(res)[:300]}")]
         if case["class"].startswith("blocks/"):
             short = f"document of {len(case['text'])} characters, {sorted(case['across'])} across every multiple of {case['step']} characters: " + short
         if want is None:
@@ -428,7 +606,10 @@ class Convert(Suite):
             key = "asc-rejected/" + (case["class"].split("/")[1] if case["class"].startswith("named/") else case["class"].split("/")[0])
             return [(key, f"well-formed document rejected with {res['exc']}: {res.get('msg')}: {short!r}")]
         if res["n"] != len(want):
-            return [("asc-node-count", f"{res['n']} nodes for {len(want)} points: {short!r}")]
+            rep = f" ({case['repeats']} of the points repeat the point they are attached to)" if case.get("repeats") else ""
+            return [("asc-node-count", f"{res['n']} nodes for {len(want)} points{rep}: {short!r}")]
+        if any(not isinstance(res[k], list) or len(res[k]) != len(want) for k in ("id", "pid", "type", "xyzr")):
+            return [("asc-malformed-output", f"columns of {[len(res[k]) if isinstance(res[k], list) else None for k in ('id', 'pid', 'type', 'xyzr')]} entries for {len(want)} nodes: {short!r}")]
         if res["id"] != list(range(res["n"])):
             return [("asc-ids", "ids are not document order 0..n-1")]
         for k, (ty, vals, pid) in enumerate(want):
